@@ -59,10 +59,13 @@ def classify_check(name, desc, loc, repo_src):
     """overflow | debug-only | always-on | harness | unwind | internal"""
     if "unwinding assertion" in desc or ".unwind." in name:
         return "unwind"
+    if loc and "verif_" in loc:
+        if desc.startswith("assertion failed"):
+            return "harness"
+        # arithmetic / bounds failure inside harness code: a bug of the check, never a violation
+        return "harness-bug"
     if desc.startswith("attempt to") and "overflow" in desc:
         return "overflow"
-    if loc and "verif_" in loc:
-        return "harness"
     if loc:
         m = re.match(r"(\S+?):(\d+):(\d+)", loc)
         if m:
